@@ -63,3 +63,31 @@ def conformance(ctx, trace_module, consts, traces):
         ctx.note("spec-drift property=%s traces=%d first_rejected_at_line=%d/%d" %
                  (ctx.prop, len(conf) - accepted, conf[first][1], conf[first][2]))
     return accepted, len(conf), conf
+
+
+def spec_to_code(ctx, consts, n, depth, replay_fn, monitor, mon_cfg, label="behaviours of the specification"):
+    """Mode 2: behaviours simulated by TLC from SD.tla -> input schedules at exact loop positions -> real code.
+    replay_fn(schedule) -> (events, missed positions).  Returns coverage numbers."""
+    from .. import monpass, simreplay
+    hists = simreplay.behaviours(consts, n, depth, ctx.seed + 1)
+    traces, same, missed = [], 0, 0
+    for h in hists:
+        sched = simreplay.schedule_of(h)
+        if not sched:
+            continue
+        rands = [e["val"] for e in h if e.get("k") == "rand"]
+        try:
+            ev, miss = replay_fn(sched, rands)
+        except TypeError:
+            ev, miss = replay_fn(sched)
+        missed += bool(miss)
+        diff = simreplay.same_outputs(h, ev)
+        same += diff is None
+        traces.append({"cfg": mon_cfg, "ev": monpass.add_adv(ev), "sched": sched, "diag": {"from": "tlc -simulate"}, "diff": diff})
+    bad, ms = judge(ctx, monitor, traces, label, lambda tr: {"sched": tr["sched"], "trace": tr["ev"], "from": "tlc -simulate"})
+    if same < len(traces):
+        first = next(t for t in traces if t["diff"] is not None)
+        ctx.note("spec-drift property=%s spec-generated schedules: %d of %d real runs differ from the behaviour of the specification "
+                 "(first: %s)" % (ctx.prop, len(traces) - same, len(traces), str(first["diff"])[:300]))
+    return {"spec_behaviours": len(hists), "spec_schedules_replayed": len(traces), "replays_equal_to_spec_behaviour": same,
+            "replay_positions_missed": missed, "spec_schedule_monitor_failures": bad}
